@@ -134,10 +134,20 @@ theorem filter_partition_perm (env : SpecEnv) (q : Query) (p : Path) (j k : Nat)
   have hi := filter_partition env q p j k op nop arg hneg harg hp nm dirs hf rs rsPos rsNeg h hpos hnegq
   ⟨hi.perm, hi.length_eq⟩
 
-/-- `negateFilter` on a filter just added is the addition of the complement. -/
-theorem negDirD_filter (op nop : FOp) (arg : QArg) (h : negOp op = some nop) :
-    negDirD (.filter op arg) = .filter nop arg := by
-  simp [negDirD, h]
+/-- The same law in terms of `negateFilter`: with `q⁺ = q + f` (the filter inserted at a position `k`
+within the property's directives), the rows of `q` are a merge of the rows of `q⁺` and of
+`negateFilter q⁺`. -/
+theorem filter_partition_negate (env : SpecEnv) (q : Query) (p : Path) (j k : Nat) (op nop : FOp)
+    (arg : QArg) (hneg : negOp op = some nop) (harg : QArg.isTag arg = false)
+    (hp : StrictPath p q.root) (nm : Name) (dirs : List Dir)
+    (hf : fieldAt p j q.root = some (.prop nm dirs)) (hk : k ≤ dirs.length)
+    (rs rsPos rsNeg : List Row) (h : rows env q = .ok rs)
+    (hpos : rows env (addFilter p j k op arg q) = .ok rsPos)
+    (hnegq : rows env (negateFilter p j k (addFilter p j k op arg q)) = .ok rsNeg) :
+    Interleave rsPos rsNeg rs := by
+  rw [negateFilter_addFilter p j k op nop arg q hneg
+    (fun nm' dirs' h' => by rw [hf] at h'; cases h'; exact hk)] at hnegq
+  exact filter_partition env q p j k op nop arg hneg harg hp nm dirs hf rs rsPos rsNeg h hpos hnegq
 
 /-- `negOp` is an involution where defined. -/
 theorem negOp_involutive (op nop : FOp) (h : negOp op = some nop) : negOp nop = some op := by
@@ -380,6 +390,60 @@ theorem eq_oneof_example :
   refine ⟨rfl, ?_⟩
   simp only [env, D, qPlain, out]; spec_eval
 
+/-- `{ R { e { x @output(name: "o1") } e { x @output(name: "o2") } } }` -/
+def qTwo : Query := ⟨"R", [], .mk none
+  [.edge "e" [] .plain (.mk none [out "x" "o1"]), .edge "e" [] .plain (.mk none [out "x" "o2"])]⟩
+
+/-- Non-vacuity of `reorder_siblings_edges`: two independent edges; the swap exchanges the two middle
+rows. -/
+theorem swap_edges_example :
+    rows env qTwo = .ok [[("o1", .int64 1), ("o2", .int64 1)], [("o1", .int64 1), ("o2", .int64 2)],
+      [("o1", .int64 2), ("o2", .int64 1)], [("o1", .int64 2), ("o2", .int64 2)]] ∧
+    rows env (swapSiblings [] 0 qTwo) = .ok [[("o1", .int64 1), ("o2", .int64 1)],
+      [("o1", .int64 2), ("o2", .int64 1)], [("o1", .int64 1), ("o2", .int64 2)],
+      [("o1", .int64 2), ("o2", .int64 2)]] ∧
+    swapEdgesOK (.edge "e" [] .plain (.mk none [out "x" "o1"]))
+      (.edge "e" [] .plain (.mk none [out "x" "o2"])) = true := by
+  refine ⟨?_, ?_, by decide⟩ <;>
+    (simp only [env, D, qTwo, out, swapSiblings, onQuery, modNode, swapAtF, swapAdj]; spec_eval)
+
+/-- A dataset in which the edge `h(k: 1)` *is* the edge `h(k: null)` filtered by `x = 1`. -/
+def Dp : Data := Data.mk
+  [⟨0, "A", [("x", .int64 1)]⟩, ⟨1, "A", [("x", .int64 1)]⟩, ⟨2, "A", [("x", .int64 2)]⟩]
+  [⟨0, "h", [("k", .int64 1)], [1]⟩, ⟨0, "h", [("k", .null)], [1, 2]⟩] [⟨"R", [], [0]⟩] [] [("A", [])]
+def envp : SpecEnv := ⟨Dp, [("one", .int64 1)], [⟨"A", "h", [("k", none)]⟩]⟩
+/-- `{ R { h(k: 1) { x @output(name: "o") } } }` -/
+def qParam : Query := ⟨"R", [], .mk none [.edge "h" [("k", .int64 1)] .plain (.mk none [out "x" "o"])]⟩
+def keep (n : VertexId) : Bool := Filter.equals (Dp.prop n "x") (.int64 1)
+
+theorem param_example_data (x : VertexId) :
+    let owners := envp.data.supers (envp.data.typeOf x)
+    envp.data.nbrs x "h" (completeParams (declParams envp owners "h") [("k", .int64 1)]) =
+      (envp.data.nbrs x "h" (completeParams (declParams envp owners "h") [("k", .null)])).filter keep := by
+  by_cases h0 : x = 0
+  · subst h0; decide
+  · have hx : (0 == x) = false := by simp [Ne.symm h0]
+    simp [envp, Dp, Data.nbrs, List.find?, hx]
+
+theorem param_example_filter (n : VertexId) (a : Asg) :
+    filterHolds envp a (some n) (envp.data.prop n "x") (.bin .equals) (.var "one") = .ok (keep n) := by
+  simp [filterHolds, envp, keep, Filter.applyStatic, Filter.equalsOp, R.ofOutcome]
+
+/-- Non-vacuity of `param_edge_as_filter`: the hypotheses hold of `envp`, both queries evaluate, and the
+theorem gives the equality of their rows (here `[{o: 1}]`: vertex 2 is excluded on both sides). -/
+theorem param_example :
+    rows envp qParam = .ok [[("o", .int64 1)]] ∧
+      rows envp (paramEdgeToFilter [] 0 "h" [("k", .null)] "x" (.bin .equals) (.var "one") qParam) =
+        .ok [[("o", .int64 1)]] := by
+  constructor <;>
+    (simp only [envp, Dp, qParam, out, paramEdgeToFilter, onQuery, modNode, modField,
+      List.modify_zero_cons, paramToFilterF, prependFilterProp]; spec_eval)
+
+example : ([[("o", Value.int64 1)]] : List Row) = [[("o", Value.int64 1)]] :=
+  param_edge_as_filter envp qParam [] 0 "h" "h" [("k", .int64 1)] [("k", .null)] "x" (.bin .equals)
+    (.var "one") keep param_example_data param_example_filter (by decide) .plain
+    (.mk none [out "x" "o"]) rfl _ _ param_example.1 param_example.2
+
 end Example
 
 end TF.C23
@@ -393,6 +457,7 @@ end TF.C23
 #print axioms TF.C23.eq_oneof_operator
 #print axioms TF.C23.filter_partition
 #print axioms TF.C23.filter_partition_perm
+#print axioms TF.C23.filter_partition_negate
 #print axioms TF.C23.negOp_involutive
 #print axioms TF.C23.ordering_not_complementary
 #print axioms TF.C23.param_edge_as_filter
@@ -414,3 +479,5 @@ end TF.C23
 #print axioms TF.C23.Example.recurse_example
 #print axioms TF.C23.Example.optional_example
 #print axioms TF.C23.Example.eq_oneof_example
+#print axioms TF.C23.Example.swap_edges_example
+#print axioms TF.C23.Example.param_example
